@@ -141,7 +141,12 @@ func (u *Unit) shape(probes []probe, level int) []*Term {
 				b := c.IntStr("100000000000000")
 				out = append(out, c.And(c.Le(c.Neg(b), p.T), c.Le(p.T, b)))
 			} else if level == 0 {
-				out = append(out, c.And(c.Le(c.Int(-1000), p.T), c.Le(p.T, c.Int(100000))))
+				if n, ok := types.Unalias(p.Type).(*types.Named); ok && n.Obj().Pkg() != nil && n.Obj().Pkg().Path() != "time" {
+					// enum-like named integer types: prefer the zero value
+					out = append(out, c.Eq(p.T, c.Int(0)))
+				} else {
+					out = append(out, c.And(c.Le(c.Int(-1000), p.T), c.Le(p.T, c.Int(100000))))
+				}
 			}
 		case SRef:
 			if p.T.Op == "ctor" {
